@@ -12,6 +12,18 @@ import Penguin.Lemmas.MuxStep
 
 namespace Penguin.Mux
 
+@[simp] theorem enq_droppedq (e : EP) (m : Msg) : (e.enq m).droppedq = e.droppedq := by
+  unfold EP.enq; split <;> rfl
+@[simp] theorem enq_rng (e : EP) (m : Msg) : (e.enq m).rng = e.rng := by
+  unfold EP.enq; split <;> rfl
+@[simp] theorem modObj_droppedq (e : EP) (i : Nat) (f : Obj → Obj) : (e.modObj i f).droppedq = e.droppedq := rfl
+@[simp] theorem modObj_rng (e : EP) (i : Nat) (f : Obj → Obj) : (e.modObj i f).rng = e.rng := rfl
+
+/-- A `Connect` frame. -/
+def Msg.isConnect : Msg → Bool
+  | .frame (.connect ..) => true
+  | _ => false
+
 /-- Every established slot refers to an existing object carrying the slot's flow id. -/
 def SlotFid (e : EP) : Prop :=
   ∀ y k, lookup e.flows y = some (.established k) → ∃ o, e.objs[k]? = some o ∧ o.fid = y
@@ -26,7 +38,7 @@ structure Eff (Y : Nat → Prop) (e e' : EP) : Prop where
   keep : ∀ (k : Nat) (o : Obj), e.objs[k]? = some o → ¬ Y o.fid → e'.objs[k]? = some o
   fid : ∀ (k : Nat) (o : Obj), e.objs[k]? = some o → ∃ o' : Obj, e'.objs[k]? = some o' ∧ o'.fid = o.fid
   fresh : ∀ (k : Nat) (o' : Obj), e.objs.length ≤ k → e'.objs[k]? = some o' → Y o'.fid
-  outq : ∃ em, e'.outq = e.outq ++ em ∧ ∀ m ∈ em, ∀ y, Msg.flow? m = some y → Y y
+  outq : ∃ em, e'.outq = e.outq ++ em ∧ ∀ m ∈ em, ∀ y, Msg.flow? m = some y → Y y ∧ (m.isConnect = true → y ∈ e.rng)
   dq : ∀ x, ¬ Y x → (x ∈ e'.droppedq ↔ x ∈ e.droppedq)
   rng : ∀ x, ¬ Y x → (x ∈ e'.rng ↔ x ∈ e.rng)
   rngSub : e'.rng.Sublist e.rng
@@ -68,10 +80,10 @@ theorem trans {Y : Nat → Prop} {a b c : EP} (s : Eff Y a b) (t : Eff Y b c) : 
   · obtain ⟨em1, h1, g1⟩ := s.outq
     obtain ⟨em2, h2, g2⟩ := t.outq
     refine ⟨em1 ++ em2, by rw [h2, h1, List.append_assoc], ?_⟩
-    intro m hm
+    intro m hm y hy
     rcases List.mem_append.mp hm with h | h
-    · exact g1 m h
-    · exact g2 m h
+    · exact g1 m h y hy
+    · exact ⟨(g2 m h y hy).1, fun hc => s.rngSub.subset ((g2 m h y hy).2 hc)⟩
 
 /-- `trans` with the later step first. -/
 theorem after {Y : Nat → Prop} {a b c : EP} (t : Eff Y b c) (s : Eff Y a b) : Eff Y a c := s.trans t
@@ -81,7 +93,7 @@ theorem mono {Y Y' : Nat → Prop} {e e' : EP} (h : ∀ x, Y x → Y' x) (s : Ef
     fun k o ho hy => s.keep k o ho (fun hh => hy (h _ hh)), s.fid, fun k o' hk ho => h _ (s.fresh k o' hk ho), ?_,
     fun x hx => s.dq x (fun hy => hx (h x hy)), fun x hx => s.rng x (fun hy => hx (h x hy)), s.rngSub, s.slotFid⟩
   obtain ⟨em, h1, g1⟩ := s.outq
-  exact ⟨em, h1, fun m hm y hy => h _ (g1 m hm y hy)⟩
+  exact ⟨em, h1, fun m hm y hy => ⟨h _ (g1 m hm y hy).1, (g1 m hm y hy).2⟩⟩
 
 /-- A change of components no flow's view depends on. -/
 theorem silent {Y : Nat → Prop} {e e' : EP} (hf : e'.flows = e.flows) (ho : e'.objs = e.objs)
@@ -103,7 +115,8 @@ theorem silent {Y : Nat → Prop} {e e' : EP} (hf : e'.flows = e.flows) (ho : e'
     rw [ho]
     exact hs y k hy
 
-theorem enq {Y : Nat → Prop} (e : EP) (m : Msg) (hm : ∀ y, Msg.flow? m = some y → Y y) : Eff Y e (e.enq m) := by
+theorem enq {Y : Nat → Prop} (e : EP) (m : Msg) (hm : ∀ y, Msg.flow? m = some y → Y y ∧ (m.isConnect = true → y ∈ e.rng)) :
+    Eff Y e (e.enq m) := by
   unfold EP.enq
   split
   · exact refl Y e
@@ -117,8 +130,14 @@ theorem enq {Y : Nat → Prop} (e : EP) (m : Msg) (hm : ∀ y, Msg.flow? m = som
       · simp [List.getElem?_eq_none h1] at h
     omega
 
-theorem enqFrame {Y : Nat → Prop} (e : EP) (f : Frame) (hm : ∀ y, Msg.flow? (.frame f) = some y → Y y) :
+theorem enqFrame {Y : Nat → Prop} (e : EP) (f : Frame)
+    (hm : ∀ y, Msg.flow? (.frame f) = some y → Y y ∧ ((Msg.frame f).isConnect = true → y ∈ e.rng)) :
     Eff Y e (e.enqFrame f) := enq e _ hm
+
+/-- Enqueueing a frame that is not a `Connect`. -/
+theorem enqFrameT {Y : Nat → Prop} (e : EP) (f : Frame) (hc : (Msg.frame f).isConnect = false)
+    (hm : ∀ y, Msg.flow? (.frame f) = some y → Y y) : Eff Y e (e.enqFrame f) :=
+  enqFrame e f (fun y hy => ⟨hm y hy, by rw [hc]; intro h; cases h⟩)
 
 /-- Modifying one object without changing its flow id. -/
 theorem modObj {Y : Nat → Prop} (e : EP) (i : Nat) (f : Obj → Obj) (hf : ∀ o, (f o).fid = o.fid)
@@ -312,13 +331,18 @@ theorem openRound_eff (e : EP) (r : OpenReq) (y : Nat) (rest : List Nat) (hq : e
   by_cases hr : r.retriesLeft = 0
   · unfold openRound; rw [if_pos hr]
     exact Eff.silent rfl rfl rfl rfl rfl rfl rfl rfl rfl
-  · rw [openRound_spec e r y rest hq h0 hfree hr hoc]
-    refine (Eff.enqFrame _ _ (by intro z hz; simp [Msg.flow?, Frame.id] at hz; exact hz.symm)).after ?_
-    have s1 : Eff (· = y) e { e with rng := rest, fallback := e.fallback } := Eff.rngPop e y rest e.fallback hq rfl
-    have s2 := Eff.insertPending (Y := (· = y)) { e with rng := rest, fallback := e.fallback } y (.requested r.req) rfl
-      (by intro i h; cases h)
-    refine (s1.trans s2).trans ?_
-    exact Eff.silent rfl rfl rfl rfl rfl rfl rfl rfl rfl
+  · have heq : (openRound e r).1 =
+        { (({ e with flows := insert e.flows y (.requested r.req) } : EP).enqFrame (.connect y e.opts.rwnd r.port r.host)) with
+            rng := rest, fallback := e.fallback,
+            opens := { r with retriesLeft := r.retriesLeft - 1 } :: e.opens.filter (·.req ≠ r.req) } := by
+      rw [openRound_spec e r y rest hq h0 hfree hr hoc]
+      simp [EP.enqFrame, EP.enq, hoc]
+    rw [heq]
+    have s1 := Eff.insertPending (Y := (· = y)) e y (.requested r.req) rfl (by intro i h; cases h)
+    have s2 := s1.trans (Eff.enqFrame (Y := (· = y)) _ (.connect y e.opts.rwnd r.port r.host)
+      (by intro z hz; simp [Msg.flow?, Frame.id] at hz; exact ⟨hz.symm, fun _ => by rw [← hz]; show y ∈ e.rng; rw [hq]; simp⟩))
+    have s3 := s2.trans (Eff.rngPop (Y := (· = y)) _ y rest e.fallback (by simp [EP.enqFrame, EP.enq, hoc, hq]) rfl)
+    exact s3.trans (Eff.silent rfl rfl rfl rfl rfl rfl rfl rfl rfl)
 
 theorem appAccept_eff (Y : Nat → Prop) (e : EP) : Eff Y e (appAccept e).1 := by
   unfold appAccept
@@ -352,7 +376,7 @@ theorem appWrite_eff (e : EP) (h : Nat) (d : Bytes) : Eff (· = hfid e h) e (app
     repeat' split
     all_goals first
       | exact hm _ (fun _ => rfl)
-      | exact (Eff.enqFrame _ _ (by intro z hz; simp [Msg.flow?, Frame.id] at hz; exact hz.symm)).after (hm _ (fun _ => rfl))
+      | exact (Eff.enqFrameT _ _ rfl (by intro z hz; simp [Msg.flow?, Frame.id] at hz; exact hz.symm)).after (hm _ (fun _ => rfl))
 
 theorem ackStep_eff (e : EP) (i : Nat) (o : Obj) (y : Nat) (hy : ∀ o', e.objs[i]? = some o' → o'.fid = y)
     (hoy : o.fid = y) : Eff (· = y) e (ackStep e i o) := by
@@ -360,7 +384,7 @@ theorem ackStep_eff (e : EP) (i : Nat) (o : Obj) (y : Nat) (hy : ∀ o', e.objs[
   have hm : ∀ f : Obj → Obj, (∀ x, (f x).fid = x.fid) → Eff (· = y) e (e.modObj i f) := fun f hf =>
     Eff.modObj e i f hf (by intro o' ho'; exact hy o' ho')
   split
-  · exact (Eff.enqFrame _ _ (by intro z hz; simp [Msg.flow?, Frame.id] at hz; rw [← hz, hoy])).after (hm _ (fun _ => rfl))
+  · exact (Eff.enqFrameT _ _ rfl (by intro z hz; simp [Msg.flow?, Frame.id] at hz; rw [← hz, hoy])).after (hm _ (fun _ => rfl))
   · exact hm _ (fun _ => rfl)
 
 theorem fillBuf_eff (fuel : Nat) (e : EP) (i y : Nat) (hy : ∀ o', e.objs[i]? = some o' → o'.fid = y) :
@@ -432,7 +456,7 @@ theorem appShutdown_eff (e : EP) (h : Nat) : Eff (· = hfid e h) e (appShutdown 
     simp only
     split
     · exact Eff.refl _ e
-    · exact (Eff.enqFrame _ _ (by intro z hz; simp [Msg.flow?, Frame.id] at hz; exact hz.symm)).after
+    · exact (Eff.enqFrameT _ _ rfl (by intro z hz; simp [Msg.flow?, Frame.id] at hz; exact hz.symm)).after
         (Eff.modObj e i _ (fun _ => rfl) (by intro o' ho'; rw [ho] at ho'; cases ho'; rfl))
 
 theorem appDropStream_eff (e : EP) (h : Nat) : Eff (· = hfid e h) e (appDropStream e h).1 := by
@@ -454,7 +478,7 @@ theorem appSendDgram_eff (Y : Nat → Prop) (e : EP) (d : Dgram) : Eff Y e (appS
   repeat' split
   all_goals first
     | exact Eff.refl Y e
-    | exact Eff.enqFrame _ _ (by intro z hz; simp [Msg.flow?] at hz)
+    | exact Eff.enqFrameT _ _ rfl (by intro z hz; simp [Msg.flow?] at hz)
 
 theorem appRecvDgram_eff (Y : Nat → Prop) (e : EP) : Eff Y e (appRecvDgram e).1 := by
   unfold appRecvDgram
@@ -483,7 +507,7 @@ theorem closeLocal_eff (e : EP) (s : Slot) (fid : Nat) (inh final : Bool)
           (by intro o' h'; exact hs i o' rfl h')
       simp only
       split
-      · exact (Eff.enqFrame _ _ (by intro z hz; simp [Msg.flow?, Frame.id] at hz; exact hz.symm)).after s1
+      · exact (Eff.enqFrameT _ _ rfl (by intro z hz; simp [Msg.flow?, Frame.id] at hz; exact hz.symm)).after s1
       · exact s1
   | requested req => exact openRejected_eff _ e req final
   | bindRequested req => exact Eff.refl _ e
@@ -524,7 +548,7 @@ theorem processFrame_eff (e : EP) (f : Frame) (ig : Bool) (hsf : SlotFid e) :
     Eff (· = f.id) e (processFrame e f ig).1 := by
   have hrst : ∀ (e0 : EP) (fid : Nat), fid = f.id → Eff (· = f.id) e0 (e0.enqFrame (.reset fid)) := by
     intro e0 fid h
-    exact Eff.enqFrame _ _ (by intro z hz; simp [Msg.flow?, Frame.id] at hz; omega)
+    exact Eff.enqFrameT _ _ rfl (by intro z hz; simp [Msg.flow?, Frame.id] at hz; omega)
   cases f with
   | connect fid rwnd port host =>
     simp only [processFrame, Frame.id] at *
@@ -533,7 +557,7 @@ theorem processFrame_eff (e : EP) (f : Frame) (ig : Bool) (hsf : SlotFid e) :
     · have s1 := Eff.newStream (Y := (· = fid)) e fid (newObj e.opts fid rwnd host port) rfl rfl
       split
       · exact s1
-      · have s2 := s1.trans (Eff.enqFrame (Y := (· = fid)) _ (.acknowledge fid e.opts.rwnd)
+      · have s2 := s1.trans (Eff.enqFrameT (Y := (· = fid)) _ (.acknowledge fid e.opts.rwnd) rfl
             (by intro z hz; simp [Msg.flow?, Frame.id] at hz; omega))
         split
         · refine Eff.after ?_ s2
